@@ -271,6 +271,9 @@ func (e *ftEnv) exchange(fault string, limit time.Duration) (bool, string, int64
 	_, _ = io.WriteString(c, "GET /x HTTP/1.1\r\nHost: verif.test\r\nConnection: close\r\nAccept-Encoding: identity\r\n\r\n")
 	br := bufio.NewReader(c)
 	resp, err := http.ReadResponse(br, nil)
+	for err == nil && resp.StatusCode >= 100 && resp.StatusCode < 200 && resp.StatusCode != 101 {
+		resp, err = http.ReadResponse(br, nil) // interim responses are not the answer
+	}
 	if err != nil {
 		return ended("closed-before-response")
 	}
